@@ -1903,3 +1903,225 @@ func ruleReadToEOF(c *Ctx, r *Rep) {
 		r.Undecided("readtoeof:census", token.NoPos, "no Next method of the command reads its reader with io.ReadAll (the raw slurp iterator was expected)")
 	}
 }
+
+
+// ---------------------------------------------------------------------------------------------------------------------
+// R-C18-discriminator: the compiler tells `import` from `include` by a field that cannot be empty.
+
+func init() {
+	reg(&Rule{ID: "R-C18-discriminator", Props: []string{"C18", "C09"}, Floor: 0,
+		Doc: "outside the printer too, a function that tells the alternatives of a syntax node apart by testing a string field for emptiness uses a field the grammar feeds from a token that cannot be empty (an identifier, a variable), not from a string literal: R-C09-discriminator's question asked of the compiler (compileImport, the module metadata listing)",
+		Run: func(c *Ctx, r *Rep) { discriminatorScan(c, r, false) }})
+	addDecided("C18", " The compiler tells import from include by the alias, which cannot be empty, not by the path (R-C18-discriminator; D56).")
+}
+
+// ---------------------------------------------------------------------------------------------------------------------
+// R-C17-samebytes: the decoder reads the very bytes the error message is cut from.
+
+func init() {
+	reg(&Rule{ID: "R-C17-samebytes", Props: []string{"C17"}, Floor: 2,
+		Doc: "a decoder's offsets are positions in what the decoder was given; where the text for an error message is fetched by seeking and re-reading a source, the decoder was constructed on that same source, not on a wrapper that drops or adds bytes in front of it (a byte-order-mark skipper, a decompressor): (1) a function that calls json.NewDecoder(R) and also S.Seek has R == S; (2) an inputReader literal with a seekable source has that source as its reader as well",
+		Run: ruleSameBytes})
+	reg(&Rule{ID: "R-C19-envpairs", Props: []string{"C19"}, Floor: 1,
+		Doc: "`env` and `$ENV` show the environment loader's pairs as given, later pairs replacing earlier ones: in the loop over the loader's result the store into the object is not conditional on what the object already holds",
+		Run: ruleEnvPairs})
+	reg(&Rule{ID: "R-C18-keeppaths", Props: []string{"C18"}, Floor: 1,
+		Doc: "NewModuleLoader keeps every search path it is given (resolved lexically, empty ones dropped) and does not probe the file system: LoadInitModules looks for the entry named .jq that is a regular file in the same list, and a constructor that filters for directories silently loses ~/.jq",
+		Run: ruleKeepPaths})
+	addDecided("C17", " The JSON decoder reads the same bytes the error text is re-read from (R-C17-samebytes).")
+	addDecided("C19", " The environment loader's pairs are stored unconditionally, in order (R-C19-envpairs).")
+	addDecided("C18", " NewModuleLoader keeps the search paths without probing them (R-C18-keeppaths).")
+}
+
+func ruleSameBytes(c *Ctx, r *Rep) {
+	n := 0
+	for _, p := range []*packages.Package{c.Gojq, c.Cli} {
+		if p == nil {
+			continue
+		}
+		info := p.TypesInfo
+		for _, fd := range c.Decls(p) {
+			var decArgs []ast.Expr
+			var seekers []types.Object
+			ast.Inspect(fd.Body, func(m ast.Node) bool {
+				call, ok := m.(*ast.CallExpr)
+				if !ok {
+					return true
+				}
+				if calleeName(info, call) == "json.NewDecoder" && len(call.Args) == 1 {
+					decArgs = append(decArgs, call.Args[0])
+				}
+				if sel, ok := call.Fun.(*ast.SelectorExpr); ok && sel.Sel.Name == "Seek" {
+					if id, ok := unparen(sel.X).(*ast.Ident); ok {
+						seekers = append(seekers, info.ObjectOf(id))
+					}
+				}
+				return true
+			})
+			if len(decArgs) > 0 && len(seekers) > 0 {
+				for _, a := range decArgs {
+					n++
+					id, isID := unparen(a).(*ast.Ident)
+					same := false
+					if isID {
+						for _, s := range seekers {
+							if info.ObjectOf(id) == s {
+								same = true
+							}
+						}
+					}
+					r.Check(same, "samebytes:"+declKey(fd)+":json.NewDecoder("+c.Src(a)+")", a.Pos(), "%s decodes from %s and seeks a source to re-read it for the error text; they are the same object: %v — a decoder behind a reader that skipped a byte-order mark reports offsets three bytes short of the text the message is cut from", declKey(fd), c.Src(a), same)
+				}
+			}
+			// inputReader literals
+			ast.Inspect(fd.Body, func(m ast.Node) bool {
+				cl, ok := m.(*ast.CompositeLit)
+				if !ok {
+					return true
+				}
+				t := info.TypeOf(cl)
+				if t == nil || typeName(t) != "inputReader" {
+					return true
+				}
+				st, ok := t.Underlying().(*types.Struct)
+				if !ok {
+					return true
+				}
+				var reader, rs ast.Expr
+				for i, e := range cl.Elts {
+					name := ""
+					val := e
+					if kv, ok := e.(*ast.KeyValueExpr); ok {
+						name = kv.Key.(*ast.Ident).Name
+						val = kv.Value
+					} else if i < st.NumFields() {
+						name = st.Field(i).Name()
+					}
+					switch name {
+					case "Reader":
+						reader = val
+					case "rs":
+						rs = val
+					}
+				}
+				if rs == nil || isNilIdent(rs) {
+					return true
+				}
+				n++
+				same := reader != nil && c.Src(reader) == c.Src(rs)
+				r.Check(same, "samebytes:"+declKey(fd)+":inputReader{"+c.Src(rs)+"}", cl.Pos(), "the inputReader built in %s reads from its seekable source itself (Reader %s, rs %s): %v", declKey(fd), c.Src(reader), c.Src(rs), same)
+				return true
+			})
+		}
+	}
+	if n == 0 {
+		r.Undecided("samebytes:census", token.NoPos, "no decoder beside a re-read source found")
+	}
+}
+
+func ruleEnvPairs(c *Ctx, r *Rep) {
+	info := c.Gojq.TypesInfo
+	n := 0
+	for _, fd := range c.Decls(c.Gojq) {
+		ast.Inspect(fd.Body, func(m ast.Node) bool {
+			rs, ok := m.(*ast.RangeStmt)
+			if !ok {
+				return true
+			}
+			call, ok := unparen(rs.X).(*ast.CallExpr)
+			if !ok {
+				return true
+			}
+			if f, ok := selectorOn(info, call.Fun, "compiler"); !ok || f != "environLoader" {
+				return true
+			}
+			walkStack(rs.Body, func(q ast.Node, stack []ast.Node) bool {
+				as, ok := q.(*ast.AssignStmt)
+				if !ok || len(as.Lhs) != 1 {
+					return true
+				}
+				ix, ok := unparen(as.Lhs[0]).(*ast.IndexExpr)
+				if !ok {
+					return true
+				}
+				if _, isMap := info.TypeOf(ix.X).Underlying().(*types.Map); !isMap {
+					return true
+				}
+				n++
+				dest := c.Src(ix.X)
+				cond := ""
+				for _, a := range stack {
+					ifs, ok := a.(*ast.IfStmt)
+					if !ok {
+						continue
+					}
+					reads := func(node ast.Node) bool {
+						found := false
+						if node == nil {
+							return false
+						}
+						ast.Inspect(node, func(z ast.Node) bool {
+							if zi, ok := z.(*ast.IndexExpr); ok && c.Src(zi.X) == dest {
+								found = true
+							}
+							return true
+						})
+						return found
+					}
+					if reads(ifs.Cond) || (ifs.Init != nil && reads(ifs.Init)) {
+						cond = c.Src(ifs)
+						if i := strings.Index(cond, "{"); i > 0 {
+							cond = strings.TrimSpace(cond[:i])
+						}
+					}
+				}
+				// an earlier `if _, ok := dest[k]; ok { continue }` in the loop body
+				for _, st := range rs.Body.List {
+					if st.End() > as.Pos() {
+						break
+					}
+					if ifs, ok := st.(*ast.IfStmt); ok && len(ifs.Body.List) > 0 {
+						if br, ok := ifs.Body.List[len(ifs.Body.List)-1].(*ast.BranchStmt); ok && br.Tok == token.CONTINUE {
+							found := false
+							ast.Inspect(ifs, func(z ast.Node) bool {
+								if zi, ok := z.(*ast.IndexExpr); ok && c.Src(zi.X) == dest && z.Pos() < ifs.Body.Pos() {
+									found = true
+								}
+								return true
+							})
+							if found {
+								cond = "an earlier `continue` that depends on " + dest
+							}
+						}
+					}
+				}
+				r.Check(cond == "", "envpairs:"+declKey(fd)+":"+c.Src(as.Lhs[0]), as.Pos(), "the store %s of a loader pair does not depend on what %s already holds (%s): %v — with first-wins, a loader returning append(os.Environ(), \"A=2\") no longer overrides A", c.Src(as), dest, cond, cond == "")
+				return true
+			})
+			return true
+		})
+	}
+	if n == 0 {
+		r.Undecided("envpairs:census", token.NoPos, "no loop over the environment loader's result stores into a map")
+	}
+}
+
+func ruleKeepPaths(c *Ctx, r *Rep) {
+	fd := c.Decl(c.Gojq, "NewModuleLoader")
+	if fd == nil {
+		r.Undecided("keeppaths:NewModuleLoader", token.NoPos, "not found")
+		return
+	}
+	info := c.Gojq.TypesInfo
+	var probes []string
+	ast.Inspect(fd.Body, func(m ast.Node) bool {
+		if call, ok := m.(*ast.CallExpr); ok {
+			switch nm := calleeName(info, call); nm {
+			case "os.Stat", "os.Lstat", "os.ReadDir", "os.Open", "os.ReadFile", "filepath.EvalSymlinks", "filepath.Glob", "filepath.WalkDir", "filepath.Walk":
+				probes = append(probes, nm)
+			}
+		}
+		return true
+	})
+	r.Check(len(probes) == 0, "keeppaths:NewModuleLoader", fd.Pos(), "NewModuleLoader does not probe the file system (%v): %v — which entries exist, and whether one is the file ~/.jq, is found out when a module is looked up", probes, len(probes) == 0)
+}
